@@ -72,6 +72,7 @@ type jsonInputIter struct {
 	offset int64
 	line   int
 	err    error
+	dec    *json.Decoder
 }
 
 func newJSONInputIter(r io.Reader, fname string) inputIter {
@@ -79,7 +80,7 @@ func newJSONInputIter(r io.Reader, fname string) inputIter {
 	dec := json.NewDecoder(ir)
 	dec.UseNumber()
 	next := func() (v any, err error) { err = dec.Decode(&v); return }
-	return &jsonInputIter{next: next, ir: ir, fname: fname}
+	return &jsonInputIter{next: next, ir: ir, fname: fname, dec: dec}
 }
 
 func (i *jsonInputIter) Next() (any, bool) {
@@ -106,9 +107,10 @@ func (i *jsonInputIter) Next() (any, bool) {
 		return i.err, true
 	}
 	if buf := i.ir.buf; buf != nil && buf.Len() >= 16*1024 {
-		i.offset += int64(buf.Len())
-		i.line += bytes.Count(buf.Bytes(), []byte{'\n'})
-		buf.Reset()
+		// discard the consumed bytes only since the decoder reads ahead
+		n := min(int(i.dec.InputOffset()-i.offset), buf.Len())
+		i.offset += int64(n)
+		i.line += bytes.Count(buf.Next(n), []byte{'\n'})
 	}
 	return v, true
 }
@@ -126,7 +128,7 @@ func newStreamInputIter(r io.Reader, fname string) inputIter {
 	ir := newInputReader(r)
 	dec := json.NewDecoder(ir)
 	dec.UseNumber()
-	return &jsonInputIter{next: newJSONStream(dec).next, ir: ir, fname: fname}
+	return &jsonInputIter{next: newJSONStream(dec).next, ir: ir, fname: fname, dec: dec}
 }
 
 type nullInputIter struct {
